@@ -58,7 +58,16 @@ PairCases == {x \in {[content |-> << SeqP(1, "1", <<a, b>>) >>, attrs |-> <<>>, 
                                  a \in PairSet, b \in {Rename(y) : y \in PairSet}} :
                    x.content[1].ps[1] # x.content[1].ps[2]}
 
+\* two and three levels of nesting, every combination of the occurrences of the outer and the inner sequence
+NestSubjects == {El("subjectMember", B("string"), 1, "1"), El("subjectMember", T("t", "OtherType"), 0, "1"), El("subjectMember", B("string"), 1, "unb")}
+NestedCases == {[content |-> ct, attrs |-> <<>>, order |-> "before"] :
+                  ct \in UNION {{ << SeqP(omin, omax, << SeqP(imin, imax, <<p>>), Tail1 >>) >>,
+                                   << SeqP(omin, omax, << SeqP(1, "1", << SeqP(imin, imax, <<p>>) >>) >>) >>,
+                                   << SeqP(omin, omax, << ChoiceP(<< SeqP(imin, imax, <<p>>), Alt >>) >>) >> } :
+                                 p \in NestSubjects, omin \in Mins, omax \in Maxs, imin \in Mins, imax \in Maxs}}
+
 Space == CASE Slice = "builtins" -> BuiltinCases
+           [] Slice = "nested" -> NestedCases
            [] Slice = "positions" -> PositionCases
            [] Slice = "attrs" -> AttrCases
            [] OTHER -> PairCases
